@@ -91,7 +91,12 @@ class SimRawReader(io.RawIOBase):
 
 
 class SimRawWriter(io.RawIOBase):
-    def __init__(self, plan: Plan, counters: Counters, name='<sim>'):
+    """*seekable*: a regular file (SimFS) can tell its position, a pipe / terminal (the simulated stdout) cannot.
+    The real text layer looks at this: only at position 0 of a seekable stream does it write the byte-order mark
+    of utf-16 / utf-32 / utf-8-sig."""
+
+    def __init__(self, plan: Plan, counters: Counters, name='<sim>', seekable=False):
+        self._seekable = bool(seekable)
         self.plan = plan
         self.durable = bytearray()
         self.calls = 0
@@ -102,6 +107,22 @@ class SimRawWriter(io.RawIOBase):
 
     def writable(self):
         return True
+
+    def seekable(self):
+        return self._seekable
+
+    def tell(self):
+        if not self._seekable:
+            raise io.UnsupportedOperation('not seekable')
+        return len(self.durable)
+
+    def seek(self, offset, whence=0):
+        if not self._seekable:
+            raise io.UnsupportedOperation('not seekable')
+        pos = {0: 0, 1: len(self.durable), 2: len(self.durable)}[whence] + offset
+        if pos != len(self.durable):
+            raise io.UnsupportedOperation('SimFS: a write-only file can only be appended to')
+        return pos
 
     def write(self, b):
         call = self.calls
@@ -147,8 +168,8 @@ def text_reader(data: bytes, plan: Plan, counters, encoding='utf-8', newline=Non
 
 
 def text_writer(plan: Plan, counters, encoding='utf-8', newline=None, name='<sim>',
-                line_buffering=False):
-    raw = SimRawWriter(plan, counters, name)
+                line_buffering=False, seekable=False):
+    raw = SimRawWriter(plan, counters, name, seekable=seekable)
     buf = io.BufferedWriter(raw, buffer_size=plan.buffer_size)
     return io.TextIOWrapper(buf, encoding=encoding, newline=newline,
                             line_buffering=line_buffering), raw
@@ -188,7 +209,7 @@ class SimFS:
             return fh
         if mode.startswith('w'):
             fh, raw = text_writer(self.plan_for(path), self.k, encoding=enc,
-                                  newline=newline, name=path)
+                                  newline=newline, name=path, seekable=True)
             self.writers[path] = raw
             self.files[path] = raw.durable   # live view of the durable bytes
             return fh
